@@ -13,13 +13,20 @@ from .gen import is_leaf, strip
 # compiler
 # ---------------------------------------------------------------------------------------
 
-def compile_inproc(path, lang, outdir, optimize=False, filter_messages=None, endian="both"):
-    """parse + render through the library entry points of the working tree (no os._exit)."""
+def compile_inproc(path, lang, outdir, optimize=False, filter_messages=None, endian="both", lint=False):
+    """parse (+ lint, as the command line does unless -q is given) + render through the library entry points of
+    the working tree (no os._exit)."""
     common.use_repo()
     from bitproto.parser import parse
     from bitproto.renderer import render
 
     proto = parse(path, traditional_mode=optimize)
+    if lint:
+        import contextlib
+        import io
+        from bitproto.linter import lint as _lint
+        with contextlib.redirect_stderr(io.StringIO()), contextlib.redirect_stdout(io.StringIO()):
+            _lint(proto)
     outs = render(proto, lang, outdir=outdir, optimization_mode=optimize,
                   optimization_mode_filter_messages=filter_messages,
                   optimization_mode_endian=endian)
